@@ -21,7 +21,7 @@ from google.longrunning import operations_pb2  # noqa: E402
 import datetime  # noqa: E402
 
 OWNERS = {1: 'o1', 2: 'o2'}
-STUDIES = {0: '', 1: 'a', 2: 'a2', 3: 'b'}       # 'a' is a prefix of 'a2' on purpose
+STUDIES = {0: '', 1: 'a_b', 2: 'a_b2', 3: 'axb'}   # 'a_b' is a prefix of 'a_b2'; as an SQL LIKE pattern it also matches 'axb'
 CLIENTS = {1: 'w1', 2: 'w2', 3: 'w3'}
 METRICS = {1: 'm1', 2: 'm2'}
 TSTATE = {1: 'REQUESTED', 2: 'ACTIVE', 3: 'STOPPING', 4: 'SUCCEEDED', 5: 'INFEASIBLE'}
@@ -111,6 +111,11 @@ class Factory(pythia.PolicyFactory):
     self.h = holder
 
   def __call__(self, problem, algorithm, supporter, study_name):
+    out = self.h.outcome
+    if out[0] == 'fail' and self.h.calls % 3 == 2:
+      # the algorithm fails while it is being set up (policy factory / designer constructor), not inside suggest()
+      self.h.calls += 1
+      raise out[1](*FAIL_ARGS[self.h.calls % len(FAIL_ARGS)])
     return Scripted(self.h)
 
 
